@@ -57,7 +57,7 @@ def write_violation(unit, job, p, res, trace_fn):
     path = os.path.join(d, oid + '.json')
     trace = ''
     try:
-        trace = trace_fn(job)
+        trace = trace_fn(job, p['name'])
     except Exception as e:
         trace = 'trace run failed: %s' % e
     # keep the part of the trace for this property
@@ -115,9 +115,13 @@ def run_native(unit, adapter, inputs):
             extra += ['/repo/src/' + s for s in m.group(1).split()]
     cmd = ['clang++-14', '-std=c++14', '-O1', '-g', '-fsanitize=address,undefined', '-fno-sanitize-recover=undefined',
            '-I/repo/src', '-I', os.path.join(ROOT, 'replay'), src] + extra + ['-o', exe]
-    p = subprocess.run(cmd, stdout=subprocess.PIPE, stderr=subprocess.STDOUT, text=True, timeout=600)
-    if p.returncode != 0:
-        return None, 'adapter build failed: ' + p.stdout[-3000:]
+    if exe not in _lib_built:
+        p = subprocess.run(cmd, stdout=subprocess.PIPE, stderr=subprocess.STDOUT, text=True, timeout=900)
+        _lib_built[exe] = (p.returncode, p.stdout)
+    brc, bout = _lib_built[exe]
+    if brc != 0:
+        return None, 'adapter build failed: ' + bout[-3000:]
+    os.environ.setdefault('ASAN_OPTIONS', 'detect_leaks=0')
     p = subprocess.run([exe] + ['%s=%s' % (k, v) for k, v in inputs.items()], stdout=subprocess.PIPE, stderr=subprocess.STDOUT, text=True, timeout=60)
     out = p.stdout
     if 'CONFIRMED' in out or p.returncode not in (0, 3):
